@@ -683,6 +683,64 @@ pub fn run_c02(run: &mut Run) -> anyhow::Result<()> {
                 "observed": class, "body_is_the_handlers": body_ok, "handler_invocations": calls, "short_deadline_ms": short, "handler_needs_ms": need}));
         }
     }
+    // (d) the callee's service is a merged Router with a generated typed server: every route is answered by its
+    // own handler, and a typed handler's error status arrives with code, message and headers
+    for case in 0..(if run.quick() { 2 } else { 30 }) {
+        use crate::codegen::{beta, Instr, Msg, H};
+        use crate::router::TagSvc;
+        let seed = run.seed ^ 0x02d ^ ((case as u64) << 24);
+        let rt = paused_rt();
+        let problems: anyhow::Result<Vec<String>> = rt.block_on(async move {
+            let fabric = Fabric::new(seed);
+            let a = start_node(&fabric, seed, 1, config_idle(60_000))?;
+            let h = H::default();
+            let names = ["/zeta", "/alpha", "/mid/x", "/beta", "/omega"];
+            let mut inner = anemo::Router::new();
+            for (i, n) in names.iter().enumerate() {
+                inner = inner.route(n, TagSvc(i as u64 + 1));
+            }
+            let router = anemo::Router::new().route("/first", TagSvc(100)).merge(inner).add_rpc_service(beta::beta_server::BetaServer::new(h.clone()));
+            let addr = Fabric::addr(2);
+            let net = anemo::Network::bind("127.0.0.1:0").private_key(key_of(seed, 2)).server_name("verif").config(config_idle(60_000)).verif_socket(fabric.socket(addr)).start(router)?;
+            let p = a.net.connect(addr).await?;
+            let mut problems = vec![];
+            let mut calls = vec![];
+            for (i, n) in names.iter().enumerate() {
+                let (net, n, want) = (a.net.clone(), n.to_string(), i as u64 + 1);
+                calls.push(tokio::spawn(async move {
+                    let r = net.rpc(p, Request::new(Bytes::new()).with_route(n.as_str())).await;
+                    match r {
+                        Ok(resp) if String::from_utf8_lossy(resp.body()).starts_with(&format!("svc={want} ")) => None,
+                        Ok(resp) => Some(format!("route {n} was answered `{}` (its own service is {want})", String::from_utf8_lossy(resp.body()))),
+                        Err(e) => Some(format!("route {n}: {e:#}")),
+                    }
+                }));
+            }
+            for c in calls {
+                if let Some(pb) = c.await? {
+                    problems.push(pb);
+                }
+            }
+            let mut client = beta::beta_client::BetaClient::new(a.net.peer(p).unwrap());
+            let instr = Instr::Fail { code: 429, message: Some("quota exceeded".into()), headers: vec![("retry-after-ms".into(), "250".into()), ("scope".into(), "peer".into())] };
+            match client.m_two(Msg { id: 5, via: String::new(), instr }).await {
+                Ok(_) => problems.push("a typed handler's error came back as a success".into()),
+                Err(s) => {
+                    let hs = s.headers();
+                    if s.status().to_u16() != 429 || hs.get("retry-after-ms").map(|x| x.as_str()) != Some("250") || hs.get("scope").map(|x| x.as_str()) != Some("peer") || !format!("{s:?}").contains("quota exceeded") {
+                        problems.push(format!("a typed handler's error status did not arrive as produced (429, message, two headers): {s:?}"));
+                    }
+                }
+            }
+            drop(net);
+            Ok(problems)
+        });
+        drop(rt);
+        run.eval(&format!("routed-service {case}"), true);
+        for pb in problems? {
+            run.oracle_fail(json!({"kind": "an RPC to a routed / typed service did not return what its own handler produced", "detail": pb, "case": case}));
+        }
+    }
     Ok(())
 }
 
